@@ -198,6 +198,9 @@ def _g_cases(ctx, rows, limit):
     return [(i + 1, r, sp, (i * 7 + ctx.seed) % 12) for i, (r, sp) in enumerate(cases)], total
 
 
+FULL_VARIANTS = (0, 1, 3, 6)  # as written, comments, backslash continuations, non-ASCII: every gap in the thorough tier
+
+
 def _v_jobs(ctx, nsrc_variants, ncand, nwalk, wsteps):
     from corpus.programs import PROGRAMS
     from harness import layouts
@@ -207,7 +210,8 @@ def _v_jobs(ctx, nsrc_variants, ncand, nwalk, wsteps):
     for prog in range(len(PROGRAMS)):
         for variant in range(layouts.N_VARIANTS)[:nsrc_variants]:
             k += 1
-            jobs.append((k * 1000, prog, variant, rng.randrange(1 << 30), ncand, nwalk, wsteps))
+            nc = ncand if (ncand is not None or variant in FULL_VARIANTS) else 200
+            jobs.append((k * 1000, prog, variant, rng.randrange(1 << 30), nc, nwalk, wsteps))
     from harness import c11_offset
     for e in range(len(c11_offset.EXTRA_SOURCES)):  # enumerated completely in every tier
         k += 1
@@ -239,7 +243,7 @@ def run(ctx):
         _model(ctx, 'OffsetMC', 'OffsetMC_n5', required=ACTIONS, timeout=3000, heap='6g')
     # ---- G
     rows = _gen_rows(ctx, 'OffsetGen' if ctx.quick else 'OffsetGen_thorough')
-    cases, total = _g_cases(ctx, rows, 5000 if ctx.quick else 120000)
+    cases, total = _g_cases(ctx, rows, 5000 if ctx.quick else 60000)
     ctx.extra['g_cases_in_table'] = total
     ctx.extra['g_cases_replayed'] = len(cases)
     nsh = NPROC if len(cases) > 200 else 1
